@@ -185,4 +185,14 @@ def rcFailed (rc : Int) : Bool := rc != 0
 /-- what the outside world decides for one launch, given as a return code: the pdf is written iff the code is 0 -/
 def schedOfRc (rc : Int) (fin : Nat) : Sched := { ok := !rcFailed rc, fin := fin }
 
+/-! ## `Sequence(MakeFilename(...), Write(outdir))` on one value (seed round K) -/
+
+/-- the names `MakeFilename.__call__` leaves in `context.output`, then `Write._make_filename` on them: where the
+value's file goes.  Existing names may be empty strings (`fileext == ""`: no extension, `write.py` `if fileext:`;
+`dirname == ""`: directly in the output directory); "existing" is presence of the key (`make_filename.py:136`,
+`key in context["output"]`), not truth of its value. -/
+def mfWritePath (overwrite : Bool) (ms : List (MFKey × Tpl)) (name : Option String) (outdir : String) (o : OutCtx) :
+    Except Exc (String × String × String × String) :=
+  wMakeFilename outdir "output" (mfCall overwrite ms name o).1
+
 end Lena.C19
